@@ -12,7 +12,7 @@ import extract
 import selftest
 
 VERIF = extract.VERIF
-SCR = '/tmp/cfr-patchsets'
+SCR = '/tmp/cfr-patchsets-%d' % os.getpid()
 
 
 def keys_on_patch(pdir, pids, slot):
@@ -77,7 +77,6 @@ def run_for(pid, jobs=8):
             ok += good
             failed += (not good)
             lines.append('%-7s %-7s %-10s %s' % ('OK' if good else 'FAIL', s, i, ', '.join(new)[:160]))
-    shutil.rmtree(SCR, ignore_errors=True)
-    selftest.cleanup(keep_targets=os.environ.get('CFR_KEEP_SCRATCH') == '1')
+    selftest.cleanup(keep_targets=os.environ.get('CFR_KEEP_SCRATCH') == '1', roots=[SCR])
     return {'entries': len(items), 'ok': ok, 'failed': failed, 'skipped': skipped,
             'seeded': sum(1 for x in items if x[0] == 'seeded'), 'benign': sum(1 for x in items if x[0] == 'benign'), 'lines': lines}
